@@ -324,15 +324,17 @@ Definition needs_live (a : cargs) : bool :=
 Lemma needs_live_derefs : forall a, needs_live a = inb "table->data"%string (derefs a).
 Proof. destruct a; reflexivity. Qed.
 
-(* DOCUMENTED preconditions of the wrappers that cannot report a failure (accessors, evaluation) or whose member reads
-   the table unchecked (grideval): the handle holds a table (for everything but ndim / total_ncoeffs / coefficients: a
-   populated one).  See NOTES_C18 "known findings": C18:accessors:null-handle-deref. *)
+(* DOCUMENTED preconditions of the wrappers whose C++ member reads the table's arrays unchecked (per-dimension accessors,
+   evaluation, grideval): IF the handle holds a table, it is a populated one (the C++ member itself indexes order[dim],
+   naxes[0], ... of an EMPTY table: the C++ twin crashes identically — C20/C17's domain).  A handle WITHOUT a table is no
+   longer excluded: since F18_1 every wrapper tests it (obligation table_checked, for all 30 functions) and returns the
+   value the header documents (no_table_refused below). *)
 Definition populated (cs : cstate) (k : nat) : bool := negb (Nat.eqb (ndim (obj_of cs k)) 0).
 Definition doc_pre (cs : cstate) (call : ccall) : bool :=
   let k := c_h call in
   match c_args call with
-  | AAcc a => live cs k && match a with AccNdim | AccTotal | AccCoeff => true | _ => populated cs k end
-  | ASearch _ | AEval | ADeriv | AGrad => live cs k && populated cs k
+  | AAcc a => match a with AccNdim | AccTotal | AccCoeff => true | _ => negb (live cs k) || populated cs k end
+  | ASearch _ | AEval | ADeriv | AGrad => negb (live cs k) || populated cs k
   | AGrideval _ _ => negb (live cs k) || populated cs k
   | _ => true
   end.
@@ -441,25 +443,25 @@ Proof.
     split; [exact O'|split; [exact D|]]. intros Lv _. apply NB; [reflexivity|]. apply LH, Lv; reflexivity.
   - (* AAcc *)
     intros E. assert (Ecs : cs' = cs) by (destruct a; try destruct (live cs k); try destruct (built _ && has_extents _); inversion E; reflexivity). subst cs'.
-    split; [exact O|split; [reflexivity|]]. intros _ P. apply andb_true_iff in P. destruct P as [Lv P].
+    split; [exact O|split; [reflexivity|]]. intros Lv P. specialize (Lv eq_refl).
     destruct (live_obj kl cs k O Hk4 Lv) as [o [Eo [Eoo Io]]]. unfold populated in P. rewrite Eoo in *.
     destruct a; rewrite ?Lv in E; try (inversion E; discriminate);
-      (apply negb_true_iff, Nat.eqb_neq in P; rewrite (built_of_inv o Io P), (has_extents_of_inv o Io P) in E; inversion E; discriminate).
+      (rewrite Lv in P; cbn [negb orb] in P; apply negb_true_iff, Nat.eqb_neq in P; rewrite (built_of_inv o Io P), (has_extents_of_inv o Io P) in E; inversion E; discriminate).
   - (* ASearch *)
     destruct (lift_step cfg_fixed F cs (OEval k)) as [cs1 b1] eqn:L.
     destruct (lift_eval kl F cs k cs1 b1 O Hk4 L) as [O1 [_ [_ [D1 Hb]]]].
     intros E. split; [|split].
     + destruct b1; inversion E; subst cs'; exact O1.
     + destruct b1; inversion E; subst cs'; exact D1.
-    + intros _ P. apply andb_true_iff in P. destruct P as [Lv P]. apply negb_true_iff, Nat.eqb_neq in P.
+    + intros Lv P. specialize (Lv eq_refl). rewrite Lv in P. cbn [negb orb] in P. apply negb_true_iff, Nat.eqb_neq in P.
       destruct (Hb Lv P) as [Eb _]. subst b1. destruct inside; inversion E; discriminate.
   - (* AEval *)
     intros L. destruct (lift_eval kl F cs k cs' b O Hk4 L) as [O1 [_ [_ [D1 Hb]]]]. split; [exact O1|split; [exact D1|]].
-    intros _ P. apply andb_true_iff in P. destruct P as [Lv P]. apply negb_true_iff, Nat.eqb_neq in P.
+    intros Lv P. specialize (Lv eq_refl). rewrite Lv in P. cbn [negb orb] in P. apply negb_true_iff, Nat.eqb_neq in P.
     destruct (Hb Lv P) as [Eb _]. rewrite Eb; discriminate.
   - (* ADeriv *)
     intros L. destruct (lift_eval kl F cs k cs' b O Hk4 L) as [O1 [_ [_ [D1 Hb]]]]. split; [exact O1|split; [exact D1|]].
-    intros _ P. apply andb_true_iff in P. destruct P as [Lv P]. apply negb_true_iff, Nat.eqb_neq in P.
+    intros Lv P. specialize (Lv eq_refl). rewrite Lv in P. cbn [negb orb] in P. apply negb_true_iff, Nat.eqb_neq in P.
     destruct (Hb Lv P) as [Eb _]. rewrite Eb; discriminate.
   - (* AGrad *)
     destruct (lift_step cfg_fixed F cs (OEval k)) as [cs1 b1] eqn:L.
@@ -467,7 +469,7 @@ Proof.
     intros E. split; [|split].
     + destruct b1; try destruct (Nat.ltb _ _); inversion E; subst cs'; exact O1.
     + destruct b1; try destruct (Nat.ltb _ _); inversion E; subst cs'; exact D1.
-    + intros _ P. apply andb_true_iff in P. destruct P as [Lv P]. apply negb_true_iff, Nat.eqb_neq in P.
+    + intros Lv P. specialize (Lv eq_refl). rewrite Lv in P. cbn [negb orb] in P. apply negb_true_iff, Nat.eqb_neq in P.
       destruct (Hb Lv P) as [Eb _]. subst b1. destruct (Nat.ltb _ _); inversion E; discriminate.
   - (* AConvolve *)
     intros L. destruct (lift_plain kl F cs _ cs' b O (Forall_inv W) eq_refl L) as [O' [_ [_ [D NB]]]].
@@ -636,15 +638,17 @@ Proof.
 Qed.
 
 (* ---- memory safety of one call ---- *)
+(* the value-returning wrappers: no failure code of their own *)
 Definition no_report (a : cargs) : bool := match a with AAcc _ | ASearch _ | AEval | ADeriv | AGrad => true | _ => false end.
-(* OBLIGATION on the glue table: every wrapper that can report a failure tests table->data before its body uses it *)
+(* OBLIGATION on the glue table: EVERY wrapper whose body uses table->data tests it first (until F18_1 the value-returning
+   ones were exempt: `|| no_report a`) *)
 Definition table_checked (gt : list glue) (a : cargs) : bool :=
-  negb (needs_live a) || no_report a || inb "table->data"%string (g_checked (glue_of gt (fname a))).
+  negb (needs_live a) || inb "table->data"%string (g_checked (glue_of gt (fname a))).
 
 Lemma table_checked_all : forall gt, forallb (table_checked gt) all_shapes = true -> forall a, table_checked gt a = true.
 Proof.
   intros gt H a. rewrite forallb_forall in H.
-  destruct a; try reflexivity;
+  destruct a; try reflexivity; try (match goal with a : acc |- _ => destruct a end);
     match goal with |- table_checked gt ?x = true => change (table_checked gt (shape_of x) = true) end;
     apply H; unfold all_shapes, all_accs; cbn [map app shape_of]; cbn [In]; tauto.
 Qed.
@@ -691,8 +695,7 @@ Proof.
   assert (LV : needs_live (c_args call) = true -> live cs (c_h call) = true).
   { intros NL. destruct (live cs (c_h call)) eqn:Lv; [reflexivity|]. exfalso.
     rewrite existsb_single in CK. pose proof (table_checked_all gt TC (c_args call)) as T. unfold table_checked in T.
-    rewrite NL in T. cbn [negb orb] in T. fold g in T. rewrite CK, orb_false_r in T.
-    unfold doc_pre in P. destruct (c_args call); try discriminate T; rewrite Lv in P; discriminate P. }
+    rewrite NL in T. cbn [negb orb] in T. fold g in T. rewrite CK in T. discriminate T. }
   assert (DR : existsb (fun a => inb a (if live cs (c_h call) then [] else ["table->data"%string])) (derefs (c_args call)) = false).
   { destruct (live cs (c_h call)) eqn:Lv; [apply existsb_inb_nil|].
     rewrite existsb_single, <- needs_live_derefs. destruct (needs_live (c_args call)); [|reflexivity]. discriminate (LV eq_refl). }
@@ -1135,4 +1138,60 @@ Proof.
   intros c F GF cs call p D Hn Hc. split; [|apply ret_of_not_crashed].
   apply (null_refused wrappers c F GF cs call p D); [|exact Hn|exact Hc].
   rewrite glue_of_pre_deref; [reflexivity|vm_compute; reflexivity].
+Qed.
+
+(* ---- a handle WITHOUT a table (zero-initialised, after a failed readsplinefitstable, after splinetable_free) or a NULL
+        handle: every wrapper that uses the table refuses before touching anything — state unchanged, the value of its
+        leading check returned (F18_1 brought the value-returning wrappers under this) ---- *)
+Lemma inb_middle : forall p a b, inb p (a ++ p :: b) = true.
+Proof. intros p a b. induction a as [|x a IH]; cbn [app inb]; [rewrite String.eqb_refl; reflexivity|]. destruct (String.eqb p x); auto. Qed.
+
+Theorem no_table_refused : forall gt c F GF cs call,
+  dead cs = false -> table_checked gt (c_args call) = true -> needs_live (c_args call) = true ->
+  existsb (fun a => inb a (c_nulls call)) (g_pre_deref (glue_of gt (fname (c_args call)))) = false ->
+  inb "table"%string (c_nulls call) = false -> live cs (c_h call) = false ->
+  c_call gt c F GF cs call = (cs, ret_of (g_check_ret (glue_of gt (fname (c_args call))))).
+Proof.
+  intros gt c F GF cs call D T NL PD Hn Lv. unfold c_call. rewrite D, PD.
+  unfold table_checked in T. rewrite NL in T. cbn [negb orb] in T.
+  rewrite (existsb_inb_hit "table->data"%string (eff_nulls cs call) _); [reflexivity| |exact T].
+  unfold eff_nulls. rewrite Hn, Lv. apply inb_middle.
+Qed.
+
+(* what include/photospline/cinter/splinetable.h documents for a handle without a table *)
+Definition no_table_value (a : cargs) : cres :=
+  match a with
+  | AAcc AccKnots | AAcc AccCoeff | AGetKey _ => RPtr false                                   (* NULL *)
+  | AAcc AccKnot | AAcc AccLower | AAcc AccUpper | AAcc AccPeriod | AEval | ADeriv => RNaN     (* NaN returned *)
+  | AGrad => RNaN                                                                             (* evaluates[0] = NaN *)
+  | AAcc _ | ASearch _ => RInt 0                                                              (* no dimensions, no knots, no coefficients; "outside" *)
+  | _ => RInt 1                                                                               (* the int-returning wrappers: failure *)
+  end.
+
+Lemma tree_checks_table : forall a, needs_live a = true ->
+  inb "table"%string (g_checked (glue_of wrappers (fname a))) = true
+  /\ inb "table->data"%string (g_checked (glue_of wrappers (fname a))) = true
+  /\ ret_of (g_check_ret (glue_of wrappers (fname a))) = no_table_value a.
+Proof.
+  intros a H. destruct a; try discriminate H; try (match goal with a : acc |- _ => destruct a end);
+    vm_compute; repeat split; reflexivity.
+Qed.
+
+Theorem no_table_refused_tree : forall c F GF cs call,
+  dead cs = false -> needs_live (c_args call) = true ->
+  inb "table"%string (c_nulls call) = true \/ live cs (c_h call) = false ->
+  c_call wrappers c F GF cs call = (cs, no_table_value (c_args call))
+  /\ no_table_value (c_args call) <> Crashed /\ (forall why, no_table_value (c_args call) <> Escaped why).
+Proof.
+  intros c F GF cs call D NL H.
+  destruct (tree_checks_table (c_args call) NL) as [Ct [Cd Ev]].
+  split; [|split; [rewrite <- Ev; apply ret_of_not_crashed|intros why; rewrite <- Ev; destruct (g_check_ret _); discriminate]].
+  rewrite <- Ev.
+  assert (PD : g_pre_deref (glue_of wrappers (fname (c_args call))) = []) by (apply glue_of_pre_deref; vm_compute; reflexivity).
+  destruct (inb "table"%string (c_nulls call)) eqn:Hn.
+  - apply (null_refused wrappers c F GF cs call "table"%string D); [rewrite PD; reflexivity|exact Hn|exact Ct].
+  - destruct H as [H|Lv]; [discriminate H|].
+    apply no_table_refused; auto.
+    + unfold table_checked. rewrite Cd. apply orb_true_r.
+    + rewrite PD. reflexivity.
 Qed.
